@@ -17,7 +17,7 @@ var c07Ops = func() []sop {
 		o = append(o, sop{Kind: "get", MB: 0, Ref: r})
 	}
 	o = append(o, sop{Kind: "get", MB: 1, Ref: "latest"}, sop{Kind: "get", MB: 2, Ref: "#1"})
-	for _, r := range []string{"#1", "#2", "nope"} {
+	for _, r := range []string{"#1", "#2", "nope", "latest"} { // "latest" is an alias for GetMessage only
 		o = append(o, sop{Kind: "seen", MB: 0, Ref: r})
 	}
 	o = append(o, sop{Kind: "seen", MB: 1, Ref: "#1"})
